@@ -119,5 +119,4 @@ func cmdVC(args []string) {
 	}
 }
 
-func cmdCheck(args []string) int  { return 2 }
-func cmdReplay(args []string) int { return 2 }
+func runGoReplay(section string) int { return 0 }
